@@ -218,6 +218,28 @@ EXT5 = {
 }
 for pid, add in EXT5.items():
     CHECKS[pid]["text"] += add
+# technique strings: what was added to each check's deciding machinery since the first version
+TECH_ADD = {
+ "C01": "; exhaustive enumeration of binary configurations is in C02/C03",
+ "C02": " + exhaustive enumeration of --contract.price spellings against the real binary (clock-bracket oracle)",
+ "C03": " + exhaustive enumeration of --contract.min-balance spellings / unit names against the real binary and of the binary wired to the real contract on a served simulated chain",
+ "C04": " + exhaustive unsigned probing of the registered RPC surface",
+ "C05": " + enumeration of kill/restart points of the real binary over a signed session",
+ "C06": " + enumeration of kill/restart points of the real binary over a signed session",
+ "C07": " + exhaustive unsigned probing of the registered RPC surface + the real binary and contract on a served simulated chain (lost node replies)",
+ "C08": " + exhaustive enumeration of --max-request-hosts values against the real binary",
+ "C09": " + real-binary connection lifecycle scenarios",
+ "C10": " + exclusive-use tracking (deterministic detection of unordered accesses to maps and non-thread-safe library objects within the explored schedules)",
+ "C13": " + kill/restart of the real binary at every prefix of a session + a committed golden database",
+ "C15": " + schedule DFS of concurrent hostile requests + reply-shape enumeration against the real agent",
+ "C16": " + exhaustive probing of the agent binary's reverse-callable set",
+ "C17": " + real-socket scenarios (close after a burst, pings, stalled reader)",
+ "C18": " + the same rounds through the real node drivers over an in-process RPC server and through the agent binary",
+ "C19": " + schedule DFS of concurrent / racing registrations + real-binary header scenarios",
+ "C20": " + cadence of the agent binary against a served pool",
+}
+for pid, add in TECH_ADD.items():
+    CHECKS[pid]["technique"] += add
 for pid, (old, new) in NOTE_FIX.items():
     CHECKS[pid]["note"] = CHECKS[pid]["note"].replace(old, new)
 
